@@ -427,6 +427,16 @@ pub struct LimitCase {
     // handshake overrides (servers)
     pub hs_keep_alive: Option<u16>,
     pub hs_max_send: Option<u16>,
+    /// values the handshake service writes into the CONNACK (v5 server, `HandshakeAck::with`); the maximum packet size
+    /// also through `HandshakeAck::max_packet_size` of the v3 server.  The limits in force are these, not the configured ones
+    #[serde(default)]
+    pub ov_max_qos: Option<u8>,
+    #[serde(default)]
+    pub ov_receive_max: Option<u16>,
+    #[serde(default)]
+    pub ov_alias: Option<u16>,
+    #[serde(default)]
+    pub ov_max_size: Option<u32>,
     /// which limit is probed: 0 CONNACK contents + send window, 1 inbound size, 2 QoS, 3 alias, 4 Receive Maximum, 5 outbound packet size
     pub probe: u8,
 }
@@ -455,6 +465,10 @@ pub async fn run_limit(c: LimitCase) -> Result<CaseInfo, Failure> {
         cfg.v5.connect.max_packet_size = c.peer_max_packet;
         cfg.v5.hs = crate::bed::v5::Hs5::Accept { keep_alive: c.hs_keep_alive, max_send: c.hs_max_send };
         cfg.v3.hs = crate::bed::v3::Hs3::Accept { idle_timeout: c.hs_keep_alive, max_send: c.hs_max_send, session_present: false };
+        if c.ov_max_qos.is_some() || c.ov_receive_max.is_some() || c.ov_alias.is_some() || c.ov_max_size.is_some() {
+            cfg.v5.hs_with = Some(crate::bed::v5::Override5 { max_qos: c.ov_max_qos, receive_max: c.ov_receive_max, topic_alias_max: c.ov_alias, max_packet_size: c.ov_max_size, session_expiry: None });
+        }
+        cfg.v3.hs_max_packet = c.ov_max_size.filter(|m| *m != 0);
     } else {
         // client: its own inbound limits travel in its CONNECT; the server's come back in CONNACK
         cfg.v5.connect.receive_max = (c.max_receive != 0).then_some(c.max_receive);
@@ -468,6 +482,16 @@ pub async fn run_limit(c: LimitCase) -> Result<CaseInfo, Failure> {
     if eut.done().is_some() {
         return Err(lfail(&c, "harness-handshake", format!("{:?}", eut.done())));
     }
+    // from here on `c` holds the limits in force: what the handshake wrote into the CONNACK wins over the configuration
+    let configured = c;
+    let c = LimitCase {
+        max_qos: if v5 { c.ov_max_qos.unwrap_or(c.max_qos) } else { c.max_qos },
+        max_receive: if v5 { c.ov_receive_max.unwrap_or(c.max_receive) } else { c.max_receive },
+        max_alias: if v5 { c.ov_alias.unwrap_or(c.max_alias) } else { c.max_alias },
+        max_size: if v5 { c.ov_max_size.unwrap_or(c.max_size) } else { c.ov_max_size.filter(|m| *m != 0).unwrap_or(c.max_size) },
+        ..c
+    };
+    let overridden = c != configured;
     let app = eut.app().clone();
     let base = eut.packets().0.len();
     let publish = |qos: u8, pid: u16, len: u32| s5::Publish5 { topic: "t/a".into(), qos, pid: (qos > 0).then_some(pid), payload_len: len, ..Default::default() };
@@ -655,10 +679,13 @@ pub async fn run_limit(c: LimitCase) -> Result<CaseInfo, Failure> {
         }
     }
     eut.finish().await;
-    let differs = c.hs_max_send.is_some() || c.hs_keep_alive.is_some() || c.peer_receive_max.is_some() || c.peer_max_packet.is_some() || c.max_qos < 2 || c.max_size != 0;
+    let differs = overridden || c.hs_max_send.is_some() || c.hs_keep_alive.is_some() || c.peer_receive_max.is_some() || c.peer_max_packet.is_some() || c.max_qos < 2 || c.max_size != 0;
     let mut info = if differs { CaseInfo::nontrivial(&c) } else { CaseInfo::trivial() };
     info.labels.push("limit");
     info.labels.push(label);
+    if overridden {
+        info.labels.push("limit-overridden-by-handshake");
+    }
     Ok(info)
 }
 
@@ -668,8 +695,14 @@ fn limit_strategy(role: Role) -> BoxedStrategy<LimitCase> {
         (prop::sample::select(vec![0u16, 1, 2, 3, 60, 21_845, 21_846, 40_000, 65_535]), prop::option::of(prop::sample::select(vec![1u16, 2, 3, 10])), prop::option::of(prop::sample::select(vec![64u32, 200, 2000]))),
         (prop::option::of(prop::sample::select(vec![1u16, 2, 30, 60])), prop::option::of(1u16..8)),
         0u8..6,
+        (
+            prop::option::weighted(0.25, 0u8..3),
+            prop::option::weighted(0.25, prop::sample::select(vec![1u16, 2, 4])),
+            prop::option::weighted(0.25, prop::sample::select(vec![0u16, 1, 3, 40])),
+            prop::option::weighted(0.3, prop::sample::select(vec![0u32, 100, 250, 1500])),
+        ),
     )
-        .prop_map(move |((max_qos, max_size, max_receive, max_alias, max_send), (keep_alive, peer_receive_max, peer_max_packet), (hs_keep_alive, hs_max_send), probe)| LimitCase {
+        .prop_map(move |((max_qos, max_size, max_receive, max_alias, max_send), (keep_alive, peer_receive_max, peer_max_packet), (hs_keep_alive, hs_max_send), probe, (ov_max_qos, ov_receive_max, ov_alias, ov_max_size))| LimitCase {
             role,
             max_qos,
             max_size,
@@ -681,6 +714,10 @@ fn limit_strategy(role: Role) -> BoxedStrategy<LimitCase> {
             peer_max_packet: if role.is_v5() { peer_max_packet } else { None },
             hs_keep_alive: if role.is_server() { hs_keep_alive } else { None },
             hs_max_send: if role.is_server() { hs_max_send } else { None },
+            ov_max_qos: if role == Role::V5Server { ov_max_qos } else { None },
+            ov_receive_max: if role == Role::V5Server { ov_receive_max } else { None },
+            ov_alias: if role == Role::V5Server { ov_alias } else { None },
+            ov_max_size: if role.is_server() { ov_max_size } else { None },
             probe,
         })
         .boxed()
@@ -723,7 +760,7 @@ pub fn run(ctx: &Ctx, started: Instant) -> i32 {
     }
     let n_gate = gate.len();
     let n_out = outcomes.len();
-    let per_shard = ctx.tier.pick(400u32, 8_000);
+    let per_shard = ctx.tier.pick(2_000u32, 20_000);
     let stats = par_shards(WORKERS, |shard| {
         let mut st = Stats::default();
         let mine: Vec<GateCase> = gate.iter().enumerate().filter(|(i, _)| i % WORKERS == shard).map(|(_, c)| c.clone()).collect();
